@@ -8,8 +8,11 @@ replay = _sched.replay
 def window_programs(rng, n, wide):
     out = []
     for _ in range(n):
-        out.append(S.random_program(rng, n_ids=3, prios=(0, 0, 1), length=rng.choice([20, 40, 60]), p_mut=0.0,
-                                    windows=True, wide=wide, p_complete=0.0))
+        # every fourth history: systems also let themselves go (clean_up) or remove / register others while they run, and are
+        # registered again later; priorities -1..1
+        mut = len(out) % 4 == 3
+        out.append(S.random_program(rng, n_ids=3, prios=(-1, 0, 0, 1) if mut else (0, 0, 1), length=rng.choice([20, 40, 60]),
+                                    p_mut=0.25 if mut else 0.0, windows=True, wide=wide, p_complete=0.0))
     return out
 
 
